@@ -25,7 +25,7 @@ WErr(e)   == [ok |-> FALSE, err |-> e]
 
 (*------------------------ instruction emission ----------------------------*)
 (* factored_data_offset: exact division by the data alignment factor *)
-Exact(o, d) == d # 0 /\ (o \div d) * d = o
+Exact(o, d) == d # 0 /\ o % (IF d < 0 THEN -d ELSE d) = 0      \* no product: TLC integers are 32-bit
 (* instruction i = [op, r, r2, o, n, e]; unused operands are 0 / <<>> *)
 EmitIns(i, daf) ==
     LET fo == IF Exact(i.o, daf) THEN i.o \div daf ELSE 0
@@ -223,8 +223,8 @@ RaSignState == 34
 (* one instruction; init = the state after the CIE's instructions (for restore) *)
 Step(st, i, init) ==
     CASE i.op = "cfa" -> [st EXCEPT !.cfa = CfaRO(i.r, i.o)]
-      [] i.op = "cfa_register" -> [st EXCEPT !.cfa = CfaRO(i.r, st.cfa.o)]
-      [] i.op = "cfa_offset" -> [st EXCEPT !.cfa = CfaRO(st.cfa.r, i.o)]
+      [] i.op = "cfa_register" -> IF st.cfa.k = "ro" THEN [st EXCEPT !.cfa = CfaRO(i.r, st.cfa.o)] ELSE st   \* else ill-formed (StepOk)
+      [] i.op = "cfa_offset" -> IF st.cfa.k = "ro" THEN [st EXCEPT !.cfa = CfaRO(st.cfa.r, i.o)] ELSE st
       [] i.op = "cfa_expr" -> [st EXCEPT !.cfa = [k |-> "expr", b |-> i.e]]
       [] i.op = "restore" -> SetRule(st, i.r, RuleOf(init, i.r))
       [] i.op = "undefined" -> SetRule(st, i.r, [k |-> "undef"])
@@ -236,6 +236,7 @@ Step(st, i, init) ==
       [] i.op = "val_expr" -> SetRule(st, i.r, [k |-> "valexpr", b |-> i.e])
       [] i.op = "remember" -> [st EXCEPT !.stack = Append(@, [cfa |-> st.cfa, rules |-> st.rules, args |-> st.args])]
       [] i.op = "restore_state" ->
+            IF st.stack = <<>> THEN st ELSE                                  \* ill-formed (StepOk)
             LET top == st.stack[Len(st.stack)] IN
             [cfa |-> top.cfa, rules |-> top.rules, args |-> top.args, stack |-> SubSeq(st.stack, 1, Len(st.stack) - 1)]
       [] i.op = "args_size" -> [st EXCEPT !.args = i.n]
